@@ -163,6 +163,9 @@ def run(tier, seed, replay=None):
             # a method whose late-bound lifetime is named in the trait / the first block and elided elsewhere (seeded change C14f:
             # an arity check on fn generics would reject it)
             p.items.append(("elfn", "lbl", False))
+        if p.mode == "trait" and rng.random() < 0.3:
+            # one item written once per `cfg` alternative inside a block (seeded change C14i: "given more than once")
+            p.items.append(("cfgdup", "cfgd", False))
         if p.mode == "trait" and rng.random() < 0.35:
             # `-> impl Future` in the trait, `async fn` in some blocks (seeded change C14h: a qualifier comparison would reject it)
             p.items.append(("afn", "fut", False))
@@ -191,16 +194,25 @@ def run(tier, seed, replay=None):
         cj = {"defect": defect, "site": str(site), "invocation": plan.invocation_text(), "program": program(plan, defect is not None and plan.mode == "trait")}
         if defect is None:
             # negative control: a well-formed invocation never triggers the validator's diagnostics
-            if any(e.startswith("error: " + m) for e in errs for m in set(MSG.values())):
+            macro_diag = [e for e in errs if e.startswith("error: ") and not e.startswith("error: aborting") and not e.startswith("error: could not compile")
+                          and "proc macro panicked" not in e]
+            if any(e.startswith("error: " + m) for e in errs for m in set(MSG.values())) or macro_diag:
+                # any diagnostic of the macro's own (an `error:` line without a rustc error code), known wording or new (seeded change C14i)
                 rep.oracle_failures.append({**cj, "clause": "well-formed invocation triggers a validation diagnostic", "errors": errs[:4]})
             elif r["rc"] != 0:
                 rep.count("control-rejected-for-another-reason:" + PC.classify_reject(PC.Eval(plan, {**r, "ran": False}, {"rc": 1, "stdout": "", "stderr": ""}))[:50])
-            if mv is not None:
+            if mv is not None and any(k_ == "cfgdup" for k_, _, _ in plan.items):
+                # duplicate item names inside one block (one per `cfg` alternative) are outside the Lean model of validate.rs (its look-up
+                # removes the first match; the code's map keeps the last): judged by rustc alone
+                rep.count("model-not-applicable:duplicate-item-names")
+            elif mv is not None:
                 rep.disagreements.append({**cj, "what": "model reports a diagnostic for a well-formed invocation", "model": mv})
             continue
         want = "error: " + MSG[defect]
         if errs != [want]:
             rep.oracle_failures.append({**cj, "clause": "exactly the macro's diagnostic for this defect and nothing else", "expected": [want], "errors": errs[:5]})
-        if mv != MSG[defect]:
+        if mv != MSG[defect] and any(k_ == "cfgdup" for k_, _, _ in plan.items):
+            rep.count("model-not-applicable:duplicate-item-names")
+        elif mv != MSG[defect]:
             rep.disagreements.append({**cj, "what": "model and implementation disagree on the diagnostic", "model": mv, "impl": errs[:3]})
     return rep.finish()
